@@ -16,6 +16,9 @@ def _handle(prop, engine, results, ev, key_of):
                      states=1, transitions=1, nontrivial=True)
         if v == "unsat":
             continue
+        if v == "skipped":
+            ev.outside.append("%s %s: %s" % (r["type"], r["query"], r.get("detail", "")))
+            continue
         if v == "sat":
             ev.replayed += 1
             w = r.get("witness") or {}
@@ -60,3 +63,81 @@ def run_hdr(prop, ev):
     ev.functions.update(["headers::UserHeader (Display)", "headers::Trailer (Display)"])
     ev.bounds.append("any subset of the 13 block-3 tags / 8 block-5 tags present, values unconstrained strings")
     return _handle(prop, "mtsym-hdr", results, ev, lambda r: "%s/%s/%s" % (prop, r["type"], r.get("kf") or "display-drops-%s" % r.get("tag")))
+
+
+def run_fmt(prop, ev, which):
+    """which: 'format' (C05: accepted content has the documented format) or 'panic' (C07: parse does not panic)"""
+    known_all = [k for k in load_known_findings().get("findings", []) if k.get("engine") == "mtsym-fmt"]
+    results = e2rules._run("fmtcheck", "run", {"known": known_all})
+    if which == "amount":
+        results = [r for r in results if r["type"] == "parse_amount"]
+    else:
+        results = [r for r in results if r["type"] != "parse_amount" and ("no panic" in r["query"]) == (which == "panic")]
+    ev.assumptions.append("field `parse` functions are executed from source on one arbitrary string of at most 60 printable ASCII characters "
+                          "and line breaks (byte and character offsets coincide); the documented format is read from the struct's doc comment "
+                          "and compiled to a regular expression; str::replace(char, char) and str::parse::<f64> follow their documented "
+                          "contracts (std's f64 grammar), the numeric value and validate_amount_decimals are uninterpreted; every slice and "
+                          "unwrap in the executed code carries a panic obligation")
+    ev.functions.update(["fields::*::parse for the single-line field types listed in mtsym/fmtcheck.py (DECIDED, PANIC_ONLY)",
+                         "fields::swift_utils::{parse_amount,parse_exact_length,parse_max_length,parse_swift_chars,parse_currency,...}"])
+    ev.bounds.append("input strings of at most 60 characters, printable ASCII and line breaks")
+    ev.outside.append("multi-line field formats and parsers built on str::split / lines / char_indices; non-ASCII input; the reject-inside-format "
+                      "direction (semantic conditions such as calendar dates are outside the regular format)")
+    # a known finding excludes its tolerated language from the query; it is reported once per run
+    for k in known_all:
+        if prop in k.get("properties", []) and which == "format" and any(k["key"] in (r.get("tolerated") or []) for r in results):
+            print("KNOWN-FINDING: property=%s %s: %s" % (prop, k["key"], k["description"]), flush=True)
+            ev.known.append({"key": k["key"], "why": "tolerated language %s excluded from the query" % k.get("tolerated")})
+    return _handle(prop, "mtsym-fmt", results, ev, lambda r: "%s/%s/%s#none" % (prop, r["type"], r.get("kf")))
+
+
+def run_fieldrt(prop, ev):
+    """field-level round trip (parse -> to_swift_string -> parse) of the field types listed in mtsym/fieldcheck.py DECIDED"""
+    results = e2rules._run("fieldcheck", "run", {"decided_only": True})
+    ev.assumptions.append("field `parse` and `to_swift_string` are executed from source on a symbolic text (one arbitrary string of at most 80 "
+                          "characters, or 1..6 lines of at most 40 characters, printable ASCII and Latin-1); amount parsing / formatting are an "
+                          "uninterpreted inverse pair")
+    ev.functions.update(["fields::*::{parse,to_swift_string} for the 28 field types of mtsym/fieldcheck.py DECIDED"])
+    ev.bounds.append("field contents of at most 6 lines x 40 characters (line-structured parsers) or 80 characters (single-string parsers)")
+    ev.outside.append("the other field types (round-trip queries not answered in time, or parser operations not encoded); contents beyond the bounds")
+    return _handle(prop, "mtsym-fieldrt", results, ev, lambda r: "%s/%s#none" % (prop, r["type"]))
+
+
+def run_block(prop, ev):
+    """SwiftParser::extract_block / find_matching_brace on structured message texts (mtsym/blockcheck.py)"""
+    results = e2rules._run("blockcheck", "run", {})
+    ev.assumptions.append("extract_block and find_matching_brace are executed from source on five message templates (all blocks; no "
+                          "block 3/5; compact `-}` terminator; a hyphen inside the last field; both) whose block contents are symbolic "
+                          "pieces of fixed length over their SWIFT character classes (block 1/2: letters, digits, blanks; block 3/5 tag "
+                          "values: letters, digits, '/'; block 4 field text: the x character set without line breaks); loops are unrolled "
+                          "12 times with unwinding assertions; a hang is confirmed by running the real function under a 20 s limit")
+    ev.functions.update(["parser::swift_parser::SwiftParser::{extract_block,find_matching_brace}"])
+    ev.bounds.append("5 message templates x 5 block indices; contents of fixed lengths (25/17/6/8/7/9/3/12 characters)")
+    ev.outside.append("characters outside the SWIFT classes inside block contents (braces inside field text), other block orders, "
+                      "to_mt_message assembly")
+    return _handle(prop, "mtsym-block", results, ev, lambda r: "%s/%s#none" % (prop, r["type"]))
+
+
+def replay_file(path):
+    """replay of a witness written by one of the source-level field / header checkers: run it on the real build again"""
+    from common import replay_batch
+    payload = json.load(open(path))
+    eng = payload.get("engine", "")
+    w = payload.get("witness") or {}
+    if eng == "mtsym-block" and "text" in w:
+        out = {"claimed": w.get("why"), "real_dev": replay_batch([{"op": "extract_block", "text": w["text"], "block": w["block"]}], "dev", timeout=20)[0]}
+        print(json.dumps(out, indent=1)[:4000])
+        return EXIT_VIOLATION
+    if eng == "mtsym-fieldrt" and "content" in w:
+        item = {"op": "field_roundtrip", "type": w["type"], "content": w["content"]}
+    elif eng == "mtsym-fmt" and "content" in w:
+        item = {"op": "field", "type": w["type"], "content": w["content"]}
+    elif eng == "mtsym-hdr" and "text" in w:
+        item = {"op": "header_roundtrip", "type": w["type"], "text": w["text"]}
+    elif eng == "mtsym-hdr" and "json" in w:
+        item = {"op": "header_json", "type": w["type"], "json": w["json"]}
+    else:
+        return None
+    out = {"claimed": w.get("why"), "real_dev": replay_batch([item], "dev")[0], "real_release": replay_batch([item], "release")[0]}
+    print(json.dumps(out, indent=1)[:4000])
+    return EXIT_VIOLATION
